@@ -335,7 +335,8 @@ Fixpoint forward (fuel : nat) (h : hdr) (p : payload) {struct fuel} : M unit :=
   | S k => forward_body (forward k) h p
   end.
 
-Definition FUEL : nat := 400.
+(* nesting budget of forward_message (Python's own limit is its recursion limit) *)
+Variable FUEL : nat.
 Definition fwd : hdr -> payload -> M unit := forward FUEL.
 
 Definition mlog := mlog_with fwd.
